@@ -384,6 +384,14 @@ def files_cases(tier):
     for mode in ("exposure1", "obs_seq"):
         cases.append({"part": "files", "save": [["pixel", "npy"], ["image", "fits"]], "mode": mode, "repeat": 3})
         cases.append({"part": "files", "save": [["pixel", "npy"]], "mode": mode, "repeat": 2, "precious": True})
+    # outputs objects created without a save list (the documented default), one of them edited in place
+    for mode in ("exposure1", "obs_seq", "obs_dask"):
+        for when in ("before", "after"):
+            cases.append({"part": "files", "default_list": True, "when": when, "mode": mode, "save": [["image", "fits"]]})
+    # the detector carries the header of an unsigned-integer input image (scaling cards BSCALE / BZERO)
+    for mode in ("exposure1", "obs_seq", "obs_dask"):
+        cases.append({"part": "files", "save": [["pixel", "fits"], ["signal", "fits"], ["image", "fits"]], "mode": mode,
+                      "header": True})
     # a stochastic pipeline without a seed (every execution of a run gives other data)
     for mode in ("obs_dask", "obs_seq"):
         cases.append({"part": "files", "save": [["pixel", "npy"], ["signal", "fits"]], "mode": mode, "noise": True})
@@ -490,6 +498,70 @@ def run_direct_case(case):
             "outcome": {"unsupported": False, "files_read_back": n}, "sets": {"unsupported": []}}
 
 
+def run_default_list_case(case):
+    """Two outputs objects created WITHOUT a save list; the list of the first is edited in place; a run with the second must
+    write exactly the documented default (the image bucket as FITS)."""
+    import pyxel
+    from pyxel.observation import Observation, ParameterValues
+    from pyxel.outputs import ExposureOutputs, ObservationOutputs
+
+    mode = case["mode"]
+    viol = []
+    tmp = tempfile.mkdtemp(prefix="vp_c19s_")
+    clock = FakeClock().install()
+
+    def bad(code, what):
+        viol.append(({"part": "files", "mode": mode.rstrip("12"), "code": code, "list": "default"},
+                     f"[{mode}, default save list, another default-configured outputs object edited in place "
+                     f"{case['when']} this one was created] {what}"))
+
+    try:
+        cls = ExposureOutputs if mode.startswith("exposure") else ObservationOutputs
+        first = cls(output_folder=os.path.join(tmp, "a"))
+        if case["when"] == "before":
+            first.save_data_to_file.append({"detector.pixel.array": ["npy"]})
+            first.save_data_to_file[0]["detector.image.array"].append("npy")
+        second = cls(output_folder=os.path.join(tmp, "b"))
+        if case["when"] == "after":
+            first.save_data_to_file.append({"detector.pixel.array": ["npy"]})
+            first.save_data_to_file[0]["detector.image.array"].append("npy")
+        det = mk.detector("ccd", 2, 3)
+        if mode.startswith("exposure"):
+            pipe = mk.pipeline({"charge_generation": [("vp.probes.write", "w",
+                                                       {"buckets": ["photon", "charge", "pixel", "signal", "image"], "salt": 1.0})]})
+            pyxel.run_mode(mk.exposure([1.0], outputs=second), det, pipe, with_inherited_coords=True)
+            nruns = 1
+        else:
+            pipe = mk.pipeline({"photon_collection": [("props.c19_outputs.enc_all", "enc", {"a": 0.0, "b": 0.0})]})
+            obs = Observation(parameters=[ParameterValues(key="pipeline.photon_collection.enc.arguments.a", values=[1, 2])],
+                              outputs=second, readout=mk.readout([1.0]), with_dask=(mode == "obs_dask"))
+            if mode == "obs_dask":
+                import dask
+
+                with dask.config.set(scheduler="synchronous"):
+                    pyxel.run_mode(obs, det, pipe, with_inherited_coords=True).load()
+            else:
+                pyxel.run_mode(obs, det, pipe, with_inherited_coords=True)
+            nruns = 2
+        d = str(second.current_output_folder)
+        files = sorted(os.listdir(d))
+        data_files = [f for f in files if f.startswith("detector_")]
+        unexpected = [f for f in data_files if not (f.startswith("detector_image") and f.endswith(".fits"))]
+        if unexpected:
+            bad("unrequested-file", f"files nobody requested were written: {unexpected} (all: {files})")
+        # (the sequential observation additionally leaves an un-numbered copy of the first run's file: not judged here)
+        if len([f for f in data_files if f.endswith(".fits")]) < nruns:
+            bad("missing-file", f"{len(data_files)} data file(s) {data_files} for {nruns} run(s) of the default list "
+                "[image as fits]")
+    except Exception as e:  # noqa: BLE001
+        bad("raised", f"raised {type(e).__name__}: {str(e)[:200]}")
+    finally:
+        clock.remove()
+        shutil.rmtree(tmp, ignore_errors=True)
+    return {"viol": viol, "sig": cfgx.sig(["default-list", mode, case["when"]]), "nontrivial": True, "n": 1,
+            "outcome": {"unsupported": False, "files_read_back": 0}, "sets": {"unsupported": []}}
+
+
 def run_files_case(case):
     import pyxel
     from pyxel.observation import Observation, ParameterValues
@@ -497,6 +569,8 @@ def run_files_case(case):
 
     if case.get("direct"):
         return run_direct_case(case)
+    if case.get("default_list"):
+        return run_default_list_case(case)
     seed = int(os.environ.get("VERIF_SEED", "0") or 0) % 5
     sl, mode = case["save"], case["mode"]
     viol = []
@@ -539,7 +613,9 @@ def run_files_case(case):
             exc = None
             try:
                 if mode.startswith("exposure"):
-                    pipe = mk.pipeline({"charge_generation": [("vp.probes.write", "w",
+                    pipe = mk.pipeline({"photon_collection": ([("props.c19_outputs.set_header", "hdr", {})]
+                                                              if case.get("header") else []),
+                                        "charge_generation": [("vp.probes.write", "w",
                                                                {"buckets": ["photon", "charge", "pixel", "signal", "image"],
                                                                 "salt": float(seed + rep)})]})
                     if outobj is None:
@@ -547,8 +623,10 @@ def run_files_case(case):
                     res = pyxel.run_mode(mk.exposure(times, outputs=outobj), det, pipe, with_inherited_coords=True)
                     expected = {(): _final_buckets()}
                 else:
-                    pipe = mk.pipeline({"photon_collection": [("props.c19_outputs.enc_all", "enc",
-                                                               {"a": 0.0, "b": 0.0, "noise": bool(case.get("noise"))})]})
+                    pipe = mk.pipeline({"photon_collection": ([("props.c19_outputs.set_header", "hdr", {})]
+                                                              if case.get("header") else [])
+                                        + [("props.c19_outputs.enc_all", "enc",
+                                            {"a": 0.0, "b": 0.0, "noise": bool(case.get("noise"))})]})
                     if outobj is None:
                         outobj = ObservationOutputs(output_folder=parent, save_data_to_file=_save_list(sl, case.get("entries") == "separate"))
                     vals = [1 + seed + rep, 2 + seed + rep, 3 + seed + rep]
@@ -660,6 +738,20 @@ def run_files_case(case):
     return {"viol": viol, "sig": cfgx.sig([sl, mode, unsupported]), "nontrivial": not unsupported, "n": max(1, nfiles),
             "outcome": {"unsupported": unsupported, "files_read_back": nfiles},
             "sets": {"unsupported": [f"{mode.rstrip('12')}:{f}" for _, f in sl] if unsupported and len(sl) == 1 else []}}
+
+
+def set_header(detector):
+    """probe: leaves the header of an unsigned 16-bit input image in the detector (what load_image does with
+    include_header=True): its scaling cards describe the INPUT file, not the buckets written later"""
+    from astropy.io import fits
+
+    h = fits.Header()
+    h["BITPIX"] = 16
+    h["BSCALE"] = 1
+    h["BZERO"] = 32768
+    h["BUNIT"] = "adu"
+    h["OBSERVER"] = "vp"
+    detector.header = h
 
 
 def enc_all(detector, a=0.0, b=0.0, noise=False):
